@@ -182,7 +182,7 @@ def check_learn(chk, rep, repo):
             if a[0] == "attr" and a[2] == "__dict__":
                 src = a[1]
                 ok = src == ("phi", li.lid, sname) or src == li.carried[sname][1]
-        brk = [e for e in w.events if e.kind == "break" and li.lid in e.loops]
+        brk = [e for e in w.events if e.kind == "break" and e.loops and e.loops[-1] == li.lid]  # exits of THIS loop
         before_exit = bool(inst) and bool(brk) and all(inst[0].seq < b.seq and inst[0].guards == b.guards for b in brk)
         rep.fn("L3-install", fn, "the best snapshot's state is installed into the object before learn returns",
                ok and (before_exit or inst and li.lid not in inst[0].loops),
